@@ -81,7 +81,8 @@ structure St where
   nGuards : Nat
   mockers : Nat → Mocker
   nMockers : Nat
-  /-- `b.mockers` flattened with the child caches of cache.go: builder → key → mocker id.  A key is `via * 1000 + target`. -/
+  /-- `b.mockers` flattened with the child caches of cache.go: builder → key → mocker id.  A key is `via * 1000 + target`
+      (the Go keys — function name, `pkg_name`, type string + method name — determine the target; `key % 1000` recovers it). -/
   cache : Nat → Nat → Option Nat
   /-- keys ever cached per builder, newest first (what `Reset` ranges over; Go's map order is arbitrary) -/
   keys : Nat → List Nat
@@ -103,14 +104,14 @@ def init (env : Env) : St where
 
 /-- guard.go:36 `Guard.Unpatch`: write the saved bytes back iff the guard was ever applied -/
 def guardUnpatch (s : St) (g : Nat) : St :=
-  let G := s.guards g
-  if G.applied then { s with text := upd s.text G.origin (overwrite (s.text G.origin) G.originBytes) } else s
+  if (s.guards g).applied = true then
+    { s with text := upd s.text (s.guards g).origin (overwrite (s.text (s.guards g).origin) (s.guards g).originBytes) }
+  else s
 
 /-- guard.go:22 `Guard.Apply` -/
 def guardApply (s : St) (g : Nat) : St :=
-  let G := s.guards g
-  { s with guards := upd s.guards g { G with applied := true },
-           text := upd s.text G.origin (overwrite (s.text G.origin) G.jumpBytes) }
+  { s with guards := upd s.guards g { (s.guards g) with applied := true },
+           text := upd s.text (s.guards g).origin (overwrite (s.text (s.guards g).origin) (s.guards g).jumpBytes) }
 
 /-- patch.go:144 `p.unpatch()` = `p.Guard().Unpatch()`; a guard created lazily here has `applied = false`, so nothing happens -/
 def patchUnpatch (s : St) (p : PatchE) : St :=
@@ -129,48 +130,43 @@ def unpatchValue (s : St) (f : Nat) : St :=
 /-- the 13-byte entry jump (monkey_amd64.go:9), regenerated from the source -/
 def jumpTo (to : BitVec 64) : Bytes := Gen.Amd64.jmpToFunctionValue 0#64 to
 
+/-- `patches[p.originPtr] = p` (patch.go:109) and the later field assignments to the registered `*patch` -/
+def register (s : St) (f : Nat) (p : PatchE) : St := { s with patches := upd s.patches f (some p) }
+
+/-- monkey.go:34 → patch.go:149 `Guard()`: a new guard object with `applied = false`, remembered in `p.guard` -/
+def mkGuard (s : St) (f : Nat) (p : PatchE) : St × Except Err Nat :=
+  ({ s with guards := upd s.guards s.nGuards { origin := f, originBytes := p.originBytes, jumpBytes := p.jumpBytes, applied := false },
+            nGuards := s.nGuards + 1,
+            patches := upd s.patches f (some { p with guard := some s.nGuards }) }, .ok s.nGuards)
+
 /-- patch.go:102 `replaceFunc` followed by `patch.Guard()` (monkey.go:34) on success.
     Returns the state each exit leaves behind and the new guard id or the error. -/
 def replaceFunc (env : Env) (s : St) (f : Nat) (to : BitVec 64) (tramp : Option Nat) : St × Except Err Nat :=
-  -- patch.go:106  if _, ok := patches[p.originPtr]; ok { unpatchValue(p.originPtr) }
-  let s1 := unpatchValue s f
-  -- patch.go:109  patches[p.originPtr] = p
-  let p0 : PatchE := { originBytes := [], jumpBytes := [], guard := none }
-  let s2 := { s1 with patches := upd s1.patches f (some p0) }
+  -- patch.go:106  if _, ok := patches[p.originPtr]; ok { unpatchValue(p.originPtr) };  :109  patches[p.originPtr] = p
+  let s2 := register (unpatchValue s f) f { originBytes := [], jumpBytes := [], guard := none }
   -- jumpdata.go:28 genJumpData: size check
-  let jump := jumpTo to
-  if jump.length ≥ env.funcSize f then (s2, .error .tooSmall) else
-  let p1 : PatchE := { p0 with jumpBytes := jump }
-  let s3 := { s2 with patches := upd s2.patches f (some p1) }
-  -- jumpdata.go:64 checkAndReadOriginBytes
-  let result := (s3.text f).take jump.length
-  if Gen.Amd64.checkAlreadyPatch result then (s3, .error .alreadyPatched) else
-  let p2 : PatchE := { p1 with originBytes := result }
-  let s4 := { s3 with patches := upd s3.patches f (some p2) }
+  if (jumpTo to).length ≥ env.funcSize f then (s2, .error .tooSmall) else
+  -- jumpdata.go:64 checkAndReadOriginBytes: RawRead(origin, len(jumpData)), NOP sentinel
+  if Gen.Amd64.checkAlreadyPatch ((s2.text f).take (jumpTo to).length) = true then
+    (register s2 f { originBytes := [], jumpBytes := jumpTo to, guard := none }, .error .alreadyPatched) else
+  let p2 : PatchE := { originBytes := (s2.text f).take (jumpTo to).length, jumpBytes := jumpTo to, guard := none }
   -- patch.go:131 fixOrigin (fix_origin_amd64.go:20): size check, relocation, one WriteTo into the placeholder
-  let fix : Option St :=
-    match tramp with
-    | none => some s4
-    | some o => if jump.length ≥ env.phSize o || !env.fixOk f o then none else some { s4 with ph := upd s4.ph o (some f) }
-  match fix with
-  | none => (s4, .error .fixOrigin)
-  | some s5 =>
-    -- patch.go:149 Guard(): applied = false
-    let g := s5.nGuards
-    let G : Guard := { origin := f, originBytes := p2.originBytes, jumpBytes := p2.jumpBytes, applied := false }
-    ({ s5 with guards := upd s5.guards g G, nGuards := g + 1,
-               patches := upd s5.patches f (some { p2 with guard := some g }) }, .ok g)
+  match tramp with
+  | none => mkGuard (register s2 f p2) f p2
+  | some o =>
+    if ((jumpTo to).length ≥ env.phSize o || !env.fixOk f o) = true then (register s2 f p2, .error .fixOrigin)
+    else mkGuard { (register s2 f p2) with ph := upd s2.ph o (some f) } f p2
 
 /-! ## mocker.go / builder.go / cache.go -/
 
 /-- builder.go:94-113 (`Func`; same rule in `ExportFunc`, `Struct(..).Method`, `ExportMethod`): reuse the cached mocker unless canceled -/
-def getMocker (s : St) (b key target : Nat) : St × Nat :=
+def getMocker (s : St) (b key : Nat) : St × Nat :=
   match s.cache b key with
   | some id => if (s.mockers id).canceled then fresh else (s, id)
   | none => fresh
 where fresh : St × Nat :=
   let id := s.nMockers
-  let m : Mocker := { target := target, guard := none, imp := none, hasWhen := false, origin := none, canceled := false }
+  let m : Mocker := { target := key % 1000, guard := none, imp := none, hasWhen := false, origin := none, canceled := false }
   ({ s with mockers := upd s.mockers id m, nMockers := id + 1,
             cache := fun b' k' => if b' = b ∧ k' = key then some id else s.cache b' k',
             keys := fun b' => if b' = b ∧ ¬ key ∈ s.keys b then key :: s.keys b' else s.keys b' }, id)
@@ -189,13 +185,17 @@ def applyImp (env : Env) (s : St) (id : Nat) (imp : Imp) : St × Option Err :=
     let s2 := guardApply s1 g
     ({ s2 with mockers := upd s2.mockers id { (s2.mockers id) with guard := some g, imp := some imp } }, none)
 
+/-- `m.guard.Cancel()` if `m.guard != nil` (mocker.go:157 → guard.go:46 UnpatchWithLock) -/
+def cancelGuard (s : St) : Option Nat → St
+  | some g => guardUnpatch s g
+  | none => s
+
+/-- mocker.go:160-162 `m.when = nil; m.origin = nil; m.canceled = true` -/
+def markCanceled (s : St) (id : Nat) : St :=
+  { s with mockers := upd s.mockers id { (s.mockers id) with hasWhen := false, origin := none, canceled := true } }
+
 /-- mocker.go:156 `baseMocker.Cancel` -/
-def cancelMocker (s : St) (id : Nat) : St :=
-  let m := s.mockers id
-  let s1 := match m.guard with
-    | some g => guardUnpatch s g        -- guard.go:46 UnpatchWithLock
-    | none => s
-  { s1 with mockers := upd s1.mockers id { m with hasWhen := false, origin := none, canceled := true } }
+def cancelMocker (s : St) (id : Nat) : St := markCanceled (cancelGuard s (s.mockers id).guard) id
 
 /-- cancel every cached mocker whose key is in `ks` (builder.go:193 ranges over the map: any order) -/
 def cancelKeys (s : St) (b : Nat) : List Nat → St
@@ -208,35 +208,35 @@ def cancelKeys (s : St) (b : Nat) : List Nat → St
 
 inductive Op where
   /-- `[.Origin(&o)].Apply(cb k)` on the mocker obtained for (builder, key→target) -/
-  | apply (b key target k : Nat) (origin : Option Nat)
+  | apply (b key k : Nat) (origin : Option Nat)
   /-- `[.Origin(&o)].Return(v)` / `.When(a).Return(v)`: `whens` + `doApply` when there is no `When` yet, otherwise only the `When` object changes -/
-  | ret (b key target : Nat) (origin : Option Nat)
-  | cancel (b key target : Nat)
+  | ret (b key : Nat) (origin : Option Nat)
+  | cancel (b key : Nat)
   | reset (b : Nat)
+
+/-- mocker.go:577 `Origin(originFunc)`: `m.origin = originFunc` (stays until Cancel) -/
+def setOrigin (s : St) (id : Nat) : Option Nat → St
+  | some o => { s with mockers := upd s.mockers id { (s.mockers id) with origin := some o } }
+  | none => s
+
+/-- mocker.go:127 `whens`: `m.imp = MakeFunc(..); m.when = when` — before doApply, so it survives a failing apply -/
+def whens (s : St) (id : Nat) : St :=
+  { s with nStubs := s.nStubs + 1,
+           mockers := upd s.mockers id { (s.mockers id) with imp := some (.stub s.nStubs), hasWhen := true } }
 
 /-- one public-API call; the second component is the panic class, if any -/
 def step (env : Env) (s : St) : Op → St × Option Err
-  | .apply b key target k origin =>
-    let (s1, id) := getMocker s b key target
-    let s2 := match origin with
-      | some o => { s1 with mockers := upd s1.mockers id { (s1.mockers id) with origin := some o } }   -- mocker.go:577 Origin
-      | none => s1
-    applyImp env s2 id (.cb k)
-  | .ret b key target origin =>
-    let (s1, id) := getMocker s b key target
-    let s2 := match origin with
-      | some o => { s1 with mockers := upd s1.mockers id { (s1.mockers id) with origin := some o } }
-      | none => s1
-    if (s2.mockers id).hasWhen then (s2, none)               -- mocker.go:540  m.when.Return(value...)
-    else
-      -- mocker.go:127 whens: m.imp = MakeFunc(..); m.when = when   (before doApply, so it survives a failing apply)
-      let n := s2.nStubs
-      let s3 := { s2 with nStubs := n + 1,
-                          mockers := upd s2.mockers id { (s2.mockers id) with imp := some (.stub n), hasWhen := true } }
-      applyImp env s3 id (.stub n)
-  | .cancel b key target =>
-    let (s1, id) := getMocker s b key target
-    (cancelMocker s1 id, none)
+  | .apply b key k origin =>
+    let r := getMocker s b key
+    applyImp env (setOrigin r.1 r.2 origin) r.2 (.cb k)
+  | .ret b key origin =>
+    let r := getMocker s b key
+    let s2 := setOrigin r.1 r.2 origin
+    if (s2.mockers r.2).hasWhen then (s2, none)               -- mocker.go:540  m.when.Return(value...)
+    else applyImp env (whens s2 r.2) r.2 (.stub s2.nStubs)
+  | .cancel b key =>
+    let r := getMocker s b key
+    (cancelMocker r.1 r.2, none)
   | .reset b => (cancelKeys s b (s.keys b), none)
 
 def run (env : Env) (s : St) : List Op → St
